@@ -33,8 +33,39 @@ def _num(x):
     return x
 
 
+def _fr(x):
+    """Exact rational of a finite concrete number, or None."""
+    from fractions import Fraction
+    if isinstance(x, Fraction):
+        return x
+    if isinstance(x, (bool, _np.bool_)):
+        return Fraction(int(x))
+    if isinstance(x, (int, _np.integer)):
+        return Fraction(int(x))
+    if isinstance(x, (float, _np.floating)):
+        xf = float(x)
+        if xf != xf or xf in (float('inf'), float('-inf')):
+            return None
+        return Fraction(xf)
+    return None
+
+
+def _exact2(a, b):
+    """Concrete-by-concrete arithmetic inside symbolic arrays is exact (the model is the reals): both
+    operands as Fractions, or None if one is non-finite / not a number."""
+    if isinstance(a, (bool, _np.bool_, int, _np.integer)) and isinstance(b, (bool, _np.bool_, int, _np.integer)):
+        return None                    # plain integer arithmetic stays integer
+    fa, fb = _fr(a), _fr(b)
+    if fa is None or fb is None:
+        return None
+    return fa, fb
+
+
 def e_add(a, b):
     if not is_sym(a) and not is_sym(b):
+        ex = _exact2(a, b)
+        if ex is not None:
+            return ex[0] + ex[1]
         with _np.errstate(all='ignore'):
             return _f64(a) + _f64(b) if isinstance(a, float) or isinstance(b, float) else a + b
     return a + b
@@ -42,27 +73,17 @@ def e_add(a, b):
 
 def e_sub(a, b):
     if not is_sym(a) and not is_sym(b):
+        ex = _exact2(a, b)
+        if ex is not None:
+            return ex[0] - ex[1]
         with _np.errstate(all='ignore'):
             return _f64(a) - _f64(b) if isinstance(a, float) or isinstance(b, float) else a - b
     return a - b
 
 
-def _exact(a, b):
-    """Both concrete and at least one an exact rational (a unit scale): stay exact."""
-    from fractions import Fraction
-    if isinstance(a, Fraction) or isinstance(b, Fraction):
-        try:
-            fa = a if isinstance(a, Fraction) else Fraction(float(a)) if isinstance(a, (float, _np.floating)) else Fraction(int(a))
-            fb = b if isinstance(b, Fraction) else Fraction(float(b)) if isinstance(b, (float, _np.floating)) else Fraction(int(b))
-            return fa, fb
-        except (ValueError, OverflowError, TypeError):
-            return None
-    return None
-
-
 def e_mul(a, b):
     if not is_sym(a) and not is_sym(b):
-        ex = _exact(a, b)
+        ex = _exact2(a, b)
         if ex is not None:
             return ex[0] * ex[1]
         with _np.errstate(all='ignore'):
@@ -76,9 +97,9 @@ def e_mul(a, b):
 
 def e_div(a, b):
     if not is_sym(a) and not is_sym(b):
-        ex = _exact(a, b)
-        if ex is not None and ex[1] != 0:
-            return ex[0] / ex[1]
+        fa, fb = _fr(a), _fr(b)
+        if fa is not None and fb is not None and fb != 0:
+            return fa / fb
         with _np.errstate(all='ignore'):
             return _f64(a) / _f64(b)
     return real(a) / real(b)
